@@ -21,11 +21,16 @@ func VerifC14_Publish(cs int) {
 		text += "0 @I3@ INDI\n1 NAME Liv /Ing/\n1 BIRT\n2 DATE 1990\n1 FAMC @F1@\n1 FAMS @F1@\n0 @F1@ FAM\n1 HUSB @I3@\n1 WIFE @I2@\n1 CHIL @I3@\n"
 	case 4: // duplicate pointers, family without members, source without title, unparsable dates
 		text += "0 @I1@ INDI\n1 NAME Dup /Smith/\n1 BIRT\n2 DATE garbage\n1 DEAT\n2 DATE 31 Feb 1900\n0 @F1@ FAM\n0 @S1@ SOUR\n0 @S2@ SOUR\n1 TITL T\n"
+	case 6: // a surname that starts with a two-byte letter or symbol (second byte symbolic: U+00C0..U+00FF)
+		text += "0 @I6@ INDI\n1 NAME Xavier /" + "\xc3" + VsBytes("initial", 1, 0x80, 0xbf) + "mile/\n1 BIRT\n2 DATE 1850\n1 DEAT\n2 DATE 1900\n"
+	case 7: // a surname that starts with any printable ASCII byte
+		text += "0 @I6@ INDI\n1 NAME Xavier /" + VsBytes("initial", 1, 0x21, 0x7e) + "mile/\n1 BIRT\n2 DATE 1850\n1 DEAT\n2 DATE 1900\n"
 	default: // an empty file
 		text = "0 HEAD\n0 TRLR\n"
 	}
 	doc, err := gedcom.NewDocumentFromString(text)
 	VsAssume(err == nil)
+	VsAssume(len(doc.Individuals()) >= 2 || cs/3 < 6)
 	before := doc.String()
 	p := vPublish(doc, vAllOptions(vis), 1, vNewMemWriter())
 	VsObserve(string(vis))
